@@ -202,14 +202,14 @@ Proof. intros H1 H2 H3. unfold resolve_call. rewrite H1, H2, H3. reflexivity. Qe
 Theorem call_site_typed_from_its_variant :
   forall C fe cur name src sg fe1 p1 final,
     sig_lookup sg (get_or [] (tlookup name (fe_alias fe))) = None ->
-    parse_function_core C fe cur name src (Some sg) = Some (fe1, p1, final) ->
+    parse_function_static C fe cur name src (Some sg) = Some (fe1, p1, final) ->
     resolve_alias (fe_alias fe1) name sg = final /\
     exists d t, sig_lookup final (get_or [] (tlookup name (fe_defs fe1))) = Some d /\
                 resolve_call (fe_F fe1) (fe_alias fe1) name sg = Some t /\
                 fd_ret d = cpp_type t.
 Proof.
   intros C fe cur name src sg fe1 p1 final Hfresh H.
-  unfold parse_function_core in H.
+  unfold parse_function_static in H.
   destruct (negb (Nat.eqb (length sg) (length (fs_params src)))); [discriminate|].
   match type of H with match ?X with _ => _ end = _ => destruct X as [st1|]; [|discriminate] end.
   destruct (merge_return_types (a_rets (st_acc st1)) false) as [merged0|]; [|discriminate].
@@ -248,7 +248,7 @@ Example call_site_nonvacuous :
     blend_after_final_first = Some ps /\
     sig_lookup [TFloat; TFloat] (get_or [] (tlookup z_blend (fe_defs (p_fe ps)))) <> None /\
     sig_lookup [TInt; TFloat] (get_or [] (tlookup z_blend (fe_alias (p_fe ps)))) = None /\
-    parse_function_core None (p_fe ps) (p_ctx ps) z_blend blend_src (Some [TInt; TFloat]) = Some (fe1, p1, [TFloat; TFloat]) /\
+    parse_function_static None (p_fe ps) (p_ctx ps) z_blend blend_src (Some [TInt; TFloat]) = Some (fe1, p1, [TFloat; TFloat]) /\
     resolve_call (fe_F fe1) (fe_alias fe1) z_blend [TInt; TFloat] = Some TFloat.
 Proof.
   eexists. eexists. eexists. split; [vm_compute; reflexivity|].
